@@ -3,7 +3,7 @@
    Proof/ParserRun.v. *)
 From Coq Require Import List NArith ZArith Bool Lia Arith.
 From GV Require Import Base.Bytes Base.Scan Base.PyStr Gen.GenParser Model.Parser Spec.IdealBody
-     Proof.TakeDrop Proof.BodyIdeal Proof.ParserHead Proof.ChunkedSteps Proof.ChunkedDecode Proof.ParserRun.
+     Proof.TakeDrop Proof.BodyIdeal Proof.ParserHead Proof.ChunkedSteps Proof.ChunkedDecode Proof.ParserRun Proof.HeadGrammar.
 Import ListNotations.
 Local Open Scope N_scope.
 
@@ -283,4 +283,60 @@ Theorem run_segmentation_independent : forall c x progs p,
     NE p -> run c x progs p = run c x progs (whole (u_abs p)).
 Proof.
   intros c. exact (run_indep c (cr_inv) (cr_alpha c) cr_inv_chunked (cr_sim c) (cr_fuel_ok c) (cr_init c) (cr_final c)).
+Qed.
+
+(* ---- the chunked reader never answers EOutOfFuel: the fuel of every loop of the model is sufficient ---- *)
+Lemma parse_trailers_no_oof c data p : parse_trailers c data p <> inr EOutOfFuel.
+Proof.
+  unfold parse_trailers. destruct (scan _ _ data p) as [i d q| |d]; try discriminate.
+  destruct (prefixb CRLF d); [discriminate|]. destruct (cap_post _ 4 i); [discriminate|].
+  pose proof (parse_headers_never_out_of_fuel c true false (firstn i d)) as H.
+  destruct (parse_headers c true false (firstn i d)) as [[hs h]|e]; [discriminate|]. congruence.
+Qed.
+Lemma parse_chunk_size_no_oof c data p q : parse_chunk_size c data p <> CSErr EOutOfFuel q.
+Proof.
+  unfold parse_chunk_size. destruct (scan _ _ data p) as [i d r| |d]; try discriminate.
+  destruct (cap_post _ 2 i); [discriminate|].
+  destruct (mem 13 _ || mem 10 _); [discriminate|]. destruct (negb (hexdigits_ok _)); [discriminate|].
+  destruct (match find_char 59 (firstn i d) with Some j => _ | None => _ end) as [|z s]; [discriminate|].
+  destruct (hex_value (z :: s) =? 0); [|discriminate].
+  pose proof (parse_trailers_no_oof c (skipn (i + 2) d) r) as H.
+  destruct (parse_trailers c (skipn (i + 2) d) r) as [[a b]|e]; [discriminate|]. congruence.
+Qed.
+Lemma gen_enter_not_raise n rest p e q : gen_enter n rest p <> GRaise e q.
+Proof. unfold gen_enter. destruct (blen rest <? n); discriminate. Qed.
+Lemma gen_next_no_oof c g p q : gen_next c g p <> GRaise EOutOfFuel q.
+Proof.
+  destruct g as [|l|size rest|]; cbn [gen_next]; try discriminate.
+  - pose proof (parse_chunk_size_no_oof c [] p) as H. destruct (parse_chunk_size c [] p) as [n r p'|p' tr|e p'];
+      [apply gen_enter_not_raise|discriminate|]. intros [= -> ->]. apply (H q). reflexivity.
+  - destruct (u_read p) as [[|b d] p']; [discriminate|apply gen_enter_not_raise].
+  - destruct (fill2 (dropN size rest) p) as [rest' p'].
+    destruct (negb (beq (firstn 2 rest') CRLF)); [discriminate|].
+    pose proof (parse_chunk_size_no_oof c (skipn 2 rest') p') as H.
+    destruct (parse_chunk_size c (skipn 2 rest') p') as [n r p''|p'' tr|e p''];
+      [apply gen_enter_not_raise|discriminate|]. intros [= -> ->]. apply (H q). reflexivity.
+Qed.
+Lemma gen_run_no_oof c : forall f g p D, gen_run c f g p <> Some (D, GTRaise EOutOfFuel).
+Proof.
+  induction f as [|f IH]; intros g p D; cbn [gen_run]; [discriminate|].
+  pose proof (gen_next_no_oof c g p) as Hn.
+  destruct (gen_next c g p) as [piece g' p'|p' tr|e p'].
+  - specialize (IH g' p'). destruct (gen_run c f g' p') as [[D' T']|]; [|discriminate]. cbn.
+    intros [= _ ->]. apply (IH D'). reflexivity.
+  - discriminate.
+  - intros [= _ ->]. apply (Hn p'). reflexivity.
+Qed.
+
+Theorem chunked_read_never_out_of_fuel : forall c n k, cr_inv k -> 0 < n -> fst (reader_read c n k) <> inr EOutOfFuel.
+Proof.
+  intros c n k (r & Hr & Hne & Hg) Hn. unfold reader_read. rewrite Hr.
+  unfold cr_read. replace (n =? 0) with false by (symmetry; apply N.eqb_neq; lia).
+  destruct (cactive r) eqn:Eact.
+  - destruct (gen_run_total c (cg r) (c_unreader k) Hne Hg) as (D & T & HF).
+    pose proof (cr_pull_spec c (gen_fuel (cg r) (c_unreader k)) n (cg r) (cbuf r) (c_unreader k) None D T _ Hne Hg
+                             (gen_fuel_measure _ _) HF) as Hp.
+    destruct (cr_pull c _ n (cg r) (cbuf r) (c_unreader k) None) as [[[r1 p1] tr1] [e|]]; cbn [fst]; [|discriminate].
+    destruct Hp as [-> _]. intros [= ->]. eapply gen_run_no_oof. exact HF.
+  - cbn [fst]. discriminate.
 Qed.
